@@ -9,3 +9,4 @@ mod gen_c06;
 mod c07;
 pub mod c05;
 mod gen_c05;
+mod c07k2;
